@@ -323,8 +323,8 @@ impl Scenario for LinkAddrScenario {
 
     fn runs(&self, tier: Tier) -> u64 {
         match tier {
-            Tier::Quick => 60_000,
-            Tier::Thorough => 1_500_000,
+            Tier::Quick => 180_000,
+            Tier::Thorough => 6_000_000,
         }
     }
 
